@@ -23,9 +23,9 @@ FP_FILE = os.path.join(VERIF, 'harness', 'fingerprints.json')
 
 # sizes just above the thresholds at which libraries switch algorithms (sort stability, small-int caching,
 # vectorised fast paths, uint8 / int16 wrap-around, block sizes)
-LADDER_SMALL = [17, 33, 65, 129, 257]
-LADDER_MID = [513, 1025, 2049, 4097]
-LADDER_BIG = [16385, 32769, 65537]
+LADDER_SMALL = [17, 33, 65, 101, 129, 257]          # (+ just above round decimal block sizes: 100, 1000, ...)
+LADDER_MID = [513, 1001, 1025, 2001, 2049, 4097]
+LADDER_BIG = [10001, 16385, 32769, 65537]
 
 # float payloads that survive float32 exactly but sit at the edges
 SPECIAL_F32 = [0.0, -0.0, 1.0, -1.0, 0.5, -0.5, 2.0 ** 24, 2.0 ** 24 + 2, -2.0 ** 31, 3.0e38, -3.0e38, 1e-38,
@@ -47,7 +47,10 @@ def ladder(level):
 def pick_size(rng, level, cap=None):
     """a size from the ladder of this level (optionally capped), +0/+1/+2 jitter"""
     xs = [x for x in ladder(level) if cap is None or x <= cap] or [min(ladder(0)[0], cap or 17)]
-    return rng.choice(xs) + rng.choice([0, 0, 1, 2])
+    x = rng.choice(xs)
+    if x % 100 == 1:          # decimal rungs (101, 1001, 2001, 10001) are exact: "one more than a round block size"
+        return x
+    return x + rng.choice([0, 0, 1, 2])
 
 
 # ---------------------------------------------------------------------------------- memory layout
